@@ -82,6 +82,8 @@ def _gen_op(rng, cfg):
         return ["query", h, rng.choices(CENTER_KINDS, weights=[5, 3, 1.5, 1, 0.6, 2.5])[0], rng.choices(RADIUS_KINDS, weights=[1.5, 1.5, 3, 3, 2, 1, 1.5, 0.5, 0.5, 1.5, 1.2, 1.2])[0], rng.randrange(10**6)]
     if k == "requery":
         return ["requery", h]
+    if k == "nudge":
+        return ["nudge", h, rng.randrange(10**6), rng.choice([1e-6, 1e-5, 3e-5, 1e-4, 0.0])]
     if k == "set_points":
         return ["set_points", h, rng.choices(SET_KINDS, weights=[3, 2, 2, 2, 1, 0.5])[0], rng.randrange(10**6), rng.choice(SET_STYLES)]
     if k == "set_weights":
@@ -93,7 +95,7 @@ def _gen_op(rng, cfg):
     raise ValueError(k)
 
 
-BASE_OPS = [("new", 3), ("query", 10), ("requery", 2), ("set_points", 4), ("set_weights", 2), ("select", 4), ("local_of", 1.5)]
+BASE_OPS = [("new", 3), ("query", 10), ("requery", 2), ("nudge", 2), ("set_points", 4), ("set_weights", 2), ("select", 4), ("local_of", 1.5)]
 
 
 # ================================================================================================
@@ -514,6 +516,42 @@ def _op_requery(ctx, op):
     _do_query(ctx, o, c, radius, True, "requery")
 
 
+def _op_nudge(ctx, op):
+    """A series of queries whose centres move by a finite-difference step (a displaced nucleus, a scan): the first sphere
+    stops just short of a parent point, the second - same radius, centre moved towards that point by a step of relative
+    size 1e-6 ... 1e-4 - contains it.  Every answer is for the centre and radius that were asked."""
+    _, h, seed, rel = op
+    o = ctx.pick(h, QUERYABLE)
+    if o is None:
+        ctx.log.add(ctx.step, "nudge", "skip")
+        return
+    pts, _ = _model(o)
+    if len(pts) < 2:
+        ctx.log.add(ctx.step, "nudge", "skip")
+        return
+    c1, ok = _center_for(o, "random", seed)
+    c1 = np.asarray(c1, dtype=float)
+    D = _dist(pts, c1)
+    order = np.argsort(D)
+    k = order[np.random.RandomState(seed % (2**32)).randint(1, len(order))]
+    d = float(D[k])
+    if not np.isfinite(d) or d <= 0:
+        ctx.log.add(ctx.step, "nudge", "skip")
+        return
+    step = rel * (1.0 + float(np.max(np.abs(c1)))) if rel > 0 else 0.0
+    r = d - 0.5 * step if step else d * 0.999
+    if r <= 0:
+        ctx.log.add(ctx.step, "nudge", "skip")
+        return
+    u = (pts[k] - c1) / d
+    _do_query(ctx, o, c1 if c1.ndim else float(c1), r, True, "nudge")
+    c2 = c1 + step * u
+    _do_query(ctx, o, c2 if c2.ndim else float(c2), r, True, "nudge")
+    # ... and a concentric, smaller sphere right after (the legitimate case of that kind of shortcut)
+    _do_query(ctx, o, c2 if c2.ndim else float(c2), 0.5 * r, True, "nudge")
+    ctx.probes.hit("nudged-centre-series")
+
+
 def _new_values(old, how, seed, is_points, domain=None):
     r = np.random.RandomState(seed % (2**32))
     old = np.asarray(old)
@@ -744,7 +782,7 @@ def _op_local_of(ctx, op):
         ctx.probes.hit("nested-local-grid")
 
 
-OPS = {"new": _op_new, "query": _op_query, "requery": _op_requery, "set_points": _op_set, "set_weights": _op_set, "select": _op_select, "local_of": _op_local_of}
+OPS = {"new": _op_new, "query": _op_query, "requery": _op_requery, "nudge": _op_nudge, "set_points": _op_set, "set_weights": _op_set, "select": _op_select, "local_of": _op_local_of}
 
 
 class GridHistoryEngine:
@@ -853,7 +891,7 @@ def _simpler(op):
             q = dict(p)
             q["dup"] = False
             yield ["new", op[1], q]
-    if k in ("query", "requery", "set_points", "set_weights", "select", "local_of") and op[1] != 0:
+    if k in ("query", "requery", "nudge", "set_points", "set_weights", "select", "local_of") and op[1] != 0:
         yield [k, 0] + list(op[2:])
     if k == "query":
         if op[2] != "centroid":
